@@ -101,7 +101,7 @@ def history(ncaps, k, ntools, entries=None):
             if act == "register":
                 register(c.choice(f"regname{i}", NAMES))
                 continue
-            entry = c.choice(f"entry{i}", (entries or ["metabolize_auto", "metabolize_forced", "execute_tool_call", "tool_loop"]) + (["shifty_call"] if len(reg) >= 2 else []))
+            entry = c.choice(f"entry{i}", (entries or ["metabolize_auto", "metabolize_forced", "execute_tool_call", "tool_loop"]) + ["metabolize_nested"] + (["shifty_call"] if len(reg) >= 2 else []))
             before = dict(runs)
             info = {"allowed": None if allowed is None else sorted(x.name for x in allowed), "entry": entry, "trace": list(trace)}
             requested = []
@@ -114,6 +114,24 @@ def history(ncaps, k, ntools, entries=None):
                     c.fail("C03.total", {"what": "metabolize raised", "raised": repr(r), **info})
                     return
                 requested = [(name, r.success)]
+            elif entry == "metabolize_nested":
+                # the tool is not the top-level call but sits inside arithmetic, a builtin, a comparison or another tool's
+                # arguments; whatever the engine makes of such an expression, a tool outside the allowed set must not run
+                name = c.choice(f"name{i}", sorted(reg))
+                outer = sorted(reg)[-1]
+                expr = c.choice(f"form{i}", [f"1 + {name}()", f"abs({name}())", f"0 < {name}()", f"{outer}({name}())", f"{outer}(x={name}())"])
+                st, r = call_returns(c, "C03.total", entry, mito.metabolize, expr,
+                                     c.choice(f"pathway{i}", [None, MetabolicPathway.OXIDATIVE]))
+                if st != "ok":
+                    c.fail("C03.total", {"what": "metabolize raised", "raised": repr(r), **info})
+                    return
+                for nm in sorted(reg):
+                    g, req = reg[nm]
+                    if not (allowed is None or req <= allowed):
+                        c.check("C03.a", runs[g] == before.get(g, 0), {"what": "disallowed tool ran from a nested position of an expression", "expr": expr,
+                                                                        "tool": nm, "required": sorted(x.name for x in req), **info})
+                trace.append(f"nested {expr}")
+                continue
             elif entry == "shifty_call":
                 # the request names a registered tool at first and another registered tool later
                 a, b = sorted(reg)[:2]
